@@ -18,6 +18,8 @@ SITES = [
     ("pixee:python/subprocess-shell-false", "import subprocess\n", "subprocess.run(cmd{n}, shell=True)", ""),
     ("pixee:python/harden-pickle-load", "import pickle\n", "pickle.load(f{n})", ""),
     ("pixee:python/https-connection", "import urllib3\n", "urllib3.HTTPConnectionPool('h{n}')", ""),
+    # context the transformer needs (the `app = Flask(...)` binding) lies on a line that the include filters do not select
+    ("pixee:python/secure-flask-session-configuration", "from flask import Flask\napp = Flask(__name__)\n", "app.config.update(SESSION_COOKIE_SECURE=False, K{n}={n})", ""),
     ("pixee:python/unused-imports", "from os.path import (\n", "    name{n},", ")\nimport sys\nprint(sys.argv)\n"),
 ]
 
